@@ -116,7 +116,8 @@ func c06Create(w *explore.Worker, c c06Case) {
 		if !exists && (r == nil || r.Err == 0) && !(canCreate && subset) {
 			fail("refusal-without-error-reply", fmt.Sprintf("reply=%v", r))
 		}
-		w.Outcome(fmt.Sprintf("create %s %s %s %s", c.Path, bitsString(c.Creator), bitsString(c.Requested), obs))
+		// distinct = distinct (path, creator may create, requested ⊆ creator, #requested bits class, observation)
+		w.Outcome(fmt.Sprintf("create %s %v %v %d %s", c.Path, canCreate, subset, min(len(bitList(c.Requested)), 2), obs))
 	})
 }
 
@@ -187,7 +188,7 @@ func c06Discon(w *explore.Worker, c c06Case) {
 				fail("protected-user-request-not-refused", fmt.Sprint(rep))
 			}
 		}
-		w.Outcome(fmt.Sprintf("discon %s %x closed=%v left=%v ban=%v/%v served=%v rep=%v", bitsString(c.Target), c.Option, tgt.Conn.Closed, left, bannedOnDisk, bannedMem, served, rep != nil && rep.Err == 0))
+		w.Outcome(fmt.Sprintf("discon %v %x closed=%v left=%v ban=%v/%v served=%v rep=%v", protected, c.Option, tgt.Conn.Closed, left, bannedOnDisk, bannedMem, served, rep != nil && rep.Err == 0))
 	})
 }
 
